@@ -1,6 +1,6 @@
 (* non-vacuity: concrete, non-trivial values meeting the hypotheses of each
    theorem of Properties.v (all by vm_compute) *)
-From V Require Import Common.Base C17.WriteSM C17.Spec C17.Proofs C17.CompileProofs C17.DiskProofs C17.SpecProofs C17.IOFail C17.PathModel C17.PathProofs C17.RelProofs C17.LinkProofs C17.Modes C17.IOHist C17.Cancel.
+From V Require Import Common.Base C17.WriteSM C17.Spec C17.Proofs C17.CompileProofs C17.DiskProofs C17.SpecProofs C17.IOFail C17.PathModel C17.PathProofs C17.RelProofs C17.SideProofs C17.LinkProofs C17.Modes C17.IOHist C17.Cancel.
 From Coq Require Import String.
 
 Definition ex_opts := mkOpts true false false.
@@ -229,4 +229,27 @@ Example ex_relative_dir :
   fst (path_relative_to_outbase (P "/w/src") (P "/w/other/deep/b.js") false []) = P "/_.._/other/deep" /\
   effective_abs (P "/w/src") (P "/w/src/a.js") false (P "../../esc") = P "/esc" /\
   fst (path_relative_to_outbase (P "/w/src") (P "/w/src/a.js") false (P "../../esc")) = P "/_.._/_.._".
+Proof. vm_compute. repeat split; reflexivity. Qed.
+
+(* side files and outfile mode *)
+Example ex_side_files :
+  side_out_path (P "/w/out") (entry_rel_path default_entry_template (P "/w/src") (P "/w/src/sub/a.ts") [] [] (P ".js")) map_suffix = P "/w/out/sub/a.js.map" /\
+  side_out_path (P "/w/out") (P ".//a.js") legal_suffix = P "/w/out/a.js.LEGAL.txt" /\
+  outfile_out_path default_entry_template (P "/w/out/sub/../x.y.js") [] = P "/w/out/x.y.js" /\
+  outfile_out_path (entry_template (P "sub/[name]-[hash]")) (P "/w/out/x.js") (P "H") = P "/w/out/sub/x-H.js".
+Proof. vm_compute. repeat split; reflexivity. Qed.
+
+(* side_file_not_an_input: the source map of out = src/a.js lands on the input src/a.js.map *)
+Example ex_side_file_on_input :
+  let oc := mkOutcome false [P "/w/src/a.ts"; P "/w/src/a.js.map"] false
+              [mkOut (P "/w/src/a.js") [1] 1 false; mkOut (side_out_path (P "/w/src") (P "./a.js") map_suffix) [2] 2 false] false false false in
+  snd (compile ex_opts oc) = true /\ snd (compile (mkOpts true true false) oc) = false.
+Proof. vm_compute. split; reflexivity. Qed.
+
+(* default_*_output_inside_outdir: hypotheses met, including an entry whose name is ".." *)
+Example ex_default_templates :
+  snd (path_relative_to_outbase (P "/w") (P "/w/src/...js") false (auto_output_path (P "/w") (P "/w/src/...js"))) = P "." /\
+  entry_out_path (P "/w/out") default_entry_template (P "/w/src") (P "/w/src/...js") [] [] (P ".js") = P "/w/out/...js" /\
+  sfree (P "ABCD2345") /\ sfree (P ".js") /\
+  asset_out_path (P "/w/out") default_asset_template (P "/w/src") (P "/w/src/sub/d.txt") (P "H") = P "/w/out/d-H.txt".
 Proof. vm_compute. repeat split; reflexivity. Qed.
